@@ -81,6 +81,7 @@ void simfd_reset(long rxcap)
     conn_counter = 0; simfd_progress = 0; memset(simfd_hard_error_t, 0, sizeof(simfd_hard_error_t)); memset(simfd_eagain_t, 0, sizeof(simfd_eagain_t));
     default_rxcap = rxcap > 0 ? rxcap : 4096;
     fd_base = SIMFD_BASE; select_eintr_at = select_sleeps = 0;
+    simfd_stream_transient = 0; simfd_last_cookie_pos = 0;
 }
 
 static int fd_alloc(int task, kobj_t *k, int origin)
@@ -621,6 +622,8 @@ int sim_poll(struct pollfd *fds, nfds_t nfds, int timeout_ms)
 /* ------------------------------------------------------------------ cookie streams */
 typedef struct { unsigned char *data; size_t len, pos; int seekable, failed; } cstream_t;
 static int open_streams;
+int simfd_stream_transient;          /* transient read failures of cookie streams so far in this run */
+size_t simfd_last_cookie_pos;        /* where the stream stood when the last of them happened */
 
 static ssize_t ck_read(void *c, char *buf, size_t n)
 {
@@ -631,6 +634,7 @@ static ssize_t ck_read(void *c, char *buf, size_t n)
     simfd_stat_cookie_reads++;
     if (s->failed) { fault_fired(FC_READ, FO_EIO); tr_printf("stream read -> EIO (unreadable)"); simfd_hard_error = 1; errno = EIO; return -1; }
     if (out == FO_EIO) { fault_fired(FC_READ, FO_EIO); tr_printf("stream read -> EIO"); s->failed = 1; simfd_hard_error = 1; errno = EIO; return -1; }
+    if (out == FO_ETRANSIENT) { fault_fired(FC_READ, FO_ETRANSIENT); tr_printf("stream read -> EINTR (once)"); simfd_stream_transient++; simfd_last_cookie_pos = s->pos; errno = EINTR; return -1; }      /* nothing delivered, nothing broken: the next read carries on */
     if (out == FO_SHORT && take > 1) {
         size_t lim = (size_t)F_PARAM(f);
         if (lim < 1) lim = 1;
